@@ -144,12 +144,16 @@ fn stress(installers: usize, emitters: usize, iters: usize, base: u64) -> String
         }));
     }
     let n_inst = installers;
+    let mut panicked = 0;
     for (i, h) in hs.into_iter().enumerate() {
         if i + 1 == n_inst { /* all installers joined after this one */ }
-        if i < n_inst { let _ = h.join(); if i + 1 == n_inst { stop.store(true, SeqCst); } } else { let _ = h.join(); }
+        let r = h.join();
+        if i < n_inst && i + 1 == n_inst { stop.store(true, SeqCst); }
+        if r.is_err() { panicked += 1; }
     }
     let w = winner.load(SeqCst);
     let mut bad = bad.lock().unwrap().clone();
+    if panicked != 0 { bad.push(format!("{} installer/emitter thread(s) panicked", panicked)); }
     if oks.load(SeqCst) != 1 { bad.push(format!("{} set() calls returned Ok", oks.load(SeqCst))); }
     if drops(w) != 0 { bad.push("installed recorder was dropped".into()); }
     match cell.try_load() {
@@ -172,7 +176,9 @@ fn own_site(site: u32) -> bool { (201..=205).contains(&site) }
 // Process-level engine: the REAL global recorder (metrics::set_global_recorder / with_recorder), one
 // script per process.  `GLOBAL <op> <op> ...` with I<r> = install recorder r on the main thread,
 // J<r> = install on a fresh thread, E = emit on the main thread, F = emit on a fresh thread,
-// P<n> = n threads emit 2000 times each while another thread makes 5 further (losing) installs.
+// P<n> = n threads emit 2000 times each while another thread makes 5 further (losing) installs,
+// U<r> = install recorder r from a destructor that runs while a fresh thread is unwinding from a
+// panic, D = emit from such a destructor (the calling context must make no difference).
 // Output tokens: K<r> | X<r>[!x] (Ok / Err handing r back) | V<r> | N | P<number of emissions that did not reach the winner>.
 fn global_emit() -> String {
     LAST.with(|l| l.set(0));
@@ -186,8 +192,22 @@ fn global_install(r: u64) -> String {
         Err(e) => { let d = e.into_inner(); let ok = d.id == r && drops(r) == 0 && d.fields.iter().all(|f| *f == r); format!("X{}{}", d.id, if ok { "" } else { "!x" }) }
     }
 }
+struct OnUnwind(Option<u64>, std::sync::mpsc::Sender<String>);
+impl Drop for OnUnwind {
+    fn drop(&mut self) {
+        assert!(std::thread::panicking());
+        let _ = self.1.send(match self.0 { Some(r) => global_install(r), None => global_emit() });
+    }
+}
+fn during_unwind(r: Option<u64>) -> String {
+    let (tx, rx) = std::sync::mpsc::channel();
+    let h = std::thread::spawn(move || { let _g = OnUnwind(r, tx); panic!("unwinding on purpose"); });
+    let _ = h.join();
+    rx.recv().unwrap()
+}
 fn global_script(ops: &str) -> String {
     metrics::__verif::set_callback(None);
+    std::panic::set_hook(Box::new(|_| {}));
     let mut out: Vec<String> = Vec::new();
     let mut winner: u64 = 0;
     for op in ops.split_whitespace() {
@@ -197,6 +217,8 @@ fn global_script(ops: &str) -> String {
             "J" => { let r: u64 = rest.parse().unwrap(); std::thread::spawn(move || global_install(r)).join().unwrap() }
             "E" => global_emit(),
             "F" => std::thread::spawn(global_emit).join().unwrap(),
+            "U" => during_unwind(Some(rest.parse().unwrap())),
+            "D" => during_unwind(None),
             "P" => {
                 let n: usize = rest.parse().unwrap();
                 let w = winner;
